@@ -42,14 +42,17 @@ type Result struct {
 
 // Profiles per property for the seq engine.
 var Profiles = map[string]*Profile{
-	"C01": {Name: "C01", MaxOps: 30, UniqueMax: 1, IndexPct: 20, CasePct: 10},
-	"C02": {Name: "C02", MaxOps: 25, UniqueMax: 1, IndexPct: 45, CasePct: 10, W: map[string]int{"sweep": 18, "sdel": 10, "reads": 2}},
-	"C03": {Name: "C03", MaxOps: 30, UniqueMin: 1, UniqueMax: 3, IndexPct: 10, CasePct: 25, W: map[string]int{"update": 40, "del": 14, "reopen": 8, "sweep": 2, "many": 8}},
-	"C04": {Name: "C04", MaxOps: 25, UniqueMax: 2, IndexPct: 40, CasePct: 15, W: map[string]int{"reopen": 16, "abandon": 8}},
-	"C05": {Name: "C05", MaxOps: 12, ForceSync: true, UniqueMax: 1, IndexPct: 25, CasePct: 10, W: map[string]int{"update": 35, "del": 12, "many": 8, "bulk": 4, "reopen": 2, "abandon": 0, "sweep": 1, "reads": 1, "create": 1, "sdel": 4}},
-	"C06": {Name: "C06", MaxOps: 25, UniqueMin: 1, UniqueMax: 2, IndexPct: 25, CasePct: 15, W: map[string]int{"update": 35}},
+	"C01":  {Name: "C01", MaxOps: 30, UniqueMax: 1, IndexPct: 20, CasePct: 10},
+	"C02":  {Name: "C02", MaxOps: 25, UniqueMax: 1, IndexPct: 45, CasePct: 10, W: map[string]int{"sweep": 18, "sdel": 10, "reads": 2}},
+	"C03":  {Name: "C03", MaxOps: 30, UniqueMin: 1, UniqueMax: 3, IndexPct: 10, CasePct: 25, W: map[string]int{"update": 40, "del": 14, "reopen": 8, "sweep": 2, "many": 8}},
+	"C04":  {Name: "C04", MaxOps: 25, UniqueMax: 2, IndexPct: 40, CasePct: 15, W: map[string]int{"reopen": 16, "abandon": 8}},
+	"C05":  {Name: "C05", MaxOps: 12, ForceSync: true, UniqueMax: 1, IndexPct: 25, CasePct: 10, W: map[string]int{"update": 35, "del": 12, "many": 8, "bulk": 4, "reopen": 2, "abandon": 0, "sweep": 1, "reads": 1, "create": 1, "sdel": 4}},
+	"C06":  {Name: "C06", MaxOps: 25, UniqueMin: 1, UniqueMax: 2, IndexPct: 25, CasePct: 15, W: map[string]int{"update": 35}},
 	"C06F": {Name: "C06F", MaxOps: 10, ForceSync: true, UniqueMax: 1, IndexPct: 25, CasePct: 10, W: map[string]int{"update": 35, "del": 12, "many": 8, "bulk": 4, "reopen": 1, "abandon": 0, "sweep": 1, "reads": 1, "create": 1, "sdel": 0}},
-	"C07": {Name: "C07", MaxOps: 20, UniqueMin: 0, UniqueMax: 2, IndexPct: 20, CasePct: 15, W: map[string]int{"many": 35, "bulk": 25, "save": 15, "update": 10}},
+	"C07":  {Name: "C07", MaxOps: 20, UniqueMin: 0, UniqueMax: 2, IndexPct: 20, CasePct: 15, W: map[string]int{"many": 35, "bulk": 25, "save": 15, "update": 10}},
+	"C08":  {Name: "C08", MaxOps: 8, UniqueMax: 1, IndexPct: 15, CasePct: 10},
+	"C10": {Name: "C10", MaxOps: 25, ForceAsync: true, AsyncOracles: true, UniqueMax: 1, IndexPct: 20, CasePct: 10,
+		W: map[string]int{"save": 30, "update": 30, "del": 14, "sdel": 5, "delall": 2, "flush": 10, "sleep": 8, "await": 12, "reopen": 5, "sweep": 3, "reads": 6, "create": 2, "many": 6, "bulk": 2}},
 	"C13": {Name: "C13", MaxOps: 25, UniqueMax: 1, IndexPct: 60, CasePct: 10, W: map[string]int{"sweep": 20}},
 	"C14": {Name: "C14", MaxOps: 25, UniqueMax: 1, IndexPct: 20, CasePct: 10, Scribble: true, W: map[string]int{"sweep": 8, "reads": 10, "resave": 10}},
 	"C15": {Name: "C15", MaxOps: 20, UniqueMax: 1, IndexPct: 20, CasePct: 50, W: map[string]int{"many": 15, "bulk": 10}},
@@ -67,7 +70,9 @@ var Owns = map[string][]string{
 	"C05": {"crash"},
 	"C06": {"reject", "iofault"},
 	"C07": {"batch"},
-	"C10": {"async"},
+	"C08": {"linear", "race"},
+	"C09": {"deadlock"},
+	"C10": {"async", "read", "layout", "deadlock"},
 	"C11": {"control"},
 	"C12": {"async"},
 	"C13": {"order"},
@@ -175,6 +180,8 @@ func Run(p Params) *Result {
 		r = RunCrash(p)
 	case "iofault":
 		r = RunIOFault(p)
+	case "conc":
+		r = RunConc(p)
 	default:
 		return &Result{Params: p, Incon: "unknown scenario " + p.Scenario}
 	}
